@@ -8,16 +8,23 @@ RULE = ('random histories of relay (strictly increasing whole-second virtual tim
         'disconnect / reconnect+ReplayLog / rotate (incl. twice per second) / clean and crash restart of the sender / log::SetLogPosition from the peer / '
         'incoming message with timestamp / ApiTimerHandler, over 6 endpoints with log_duration in {0,-1,30,600,3600,86400}; '
         'small two-file logs cut at EVERY byte offset of either file, then replayed (thorough: also 4-file logs with 23 entries, every offset of every file); reconnects in which the peer\'s own replay emission (same code, same situation) is handled before ours starts; bytes overwritten at sampled offsets with sampled values '
-        '(length header, terminator, structure, message text, timestamp digits). '
+        '(length header, terminator, structure, message text, timestamp digits); '
+        'size-boundaries: one entry of an exact byte length 64 KiB-1/64 KiB/64 KiB+1, 1 MiB-1/1 MiB/1 MiB+1, 4 MiB (thorough: 4095..4097, 8192, 9999/10000, 99999/100000, 128 KiB+-1, 999999/1000000, 2 MiB, 4 MiB+-1, 9999999/10000000; payload bytes x, quote, backslash), '
+        'or ending at an exact file offset k*64 KiB, placed first / in the middle / last in a rotated file or in current, small entries around it and in the other file, optional acknowledgement + clean-up + second outage; '
+        'big-history: random histories with several entries of 4 KiB .. 1.1 MiB (thorough .. 4 MiB); big-truncate: a file cut right before / inside / right after a large entry; '
+        'nonmonotone-clock: relays within one clock reading and with the clock stepped back by 1 s .. 1 h, rotations in the same second and right after the step, acknowledgement + clean-up. '
         'non-trivial = at least one persisted event and one replay that delivered something; distinct = distinct script text')
 TRUSTED = ['model: coq/Replay/RlBytes.v, RlModel.v (transcription of ApiListener::PersistMessage/RotateLogFile/OpenLogFile/ReplayLog/ApiTimerHandler/'
-           'SyncRelayMessage/RelayMessageOne, JsonRpcConnection::MessageHandler timestamp filter, SetLogPositionHandler, NetString::ReadStringFromStream)',
+           'SyncRelayMessage/RelayMessageOne, JsonRpcConnection::MessageHandler timestamp filter, SetLogPositionHandler, NetString::ReadStringFromStream); '
+           'RlCompact.v is PROVED to refine it (C12_record_model_*), so it adds nothing here',
            'log entry payload: tiny concrete encoding = the bytes JsonEncode emits for PersistMessage\'s dictionary; strict decoder for that shape only '
            '(JsonDecode accepts more; the generator keeps corrupting bytes to values on which both agree, see notes/C12.md)',
+           'tools/facts_c12.py: recognisers of the size limits (netstring reader digits / colon window / maxMessageLength test, what ReplayLog passes, what PersistMessage writes) and of the forms of ReplayLog/RotateLogFile',
            'hook H1 (virtual clock) in lib/base/utility.cpp; harness constructs ApiListener/JsonRpcConnection without PKI/sockets and reads the outgoing queue']
-ASSUMPTIONS = ['persisted timestamps strictly increase (premise of C12_replayed; two relays within the same clock reading make ReplayLog skip the second)',
+ASSUMPTIONS = ['the sender\'s clock advances before every relay (rl_hclocked, premise of C12_replayed; its boundary is the recorded finding nonincreasing-timestamps-not-replayed, family nonmonotone-clock)',
+               'every persisted entry is shorter than 10^9 bytes and has a timestamp below 10^15 s (rl_hsized over the regenerated limits; necessary: C12_read_limit_hides); the run covers entries up to 16 MiB',
                'no event is relayed while the peer is syncing (statement speaks about disconnected peers)',
-               'log files are smaller than the 64 KiB read chunk of StreamReadContext (whole-file buffer in the model)',
+               'StreamReadContext::FillFromStream delivers the whole file over successive calls (whole-file buffer in the model); exercised with files up to 16 MiB and frames ending at 4 KiB / 64 KiB chunk boundaries',
                'the local endpoint is the zone master and messages are locally generated (origin = null)']
 
 SECS = ['-', 'op', 'om', 'oa', 'ob', 'oc', 'og', 'za', 'zb', 'zm', 'zg', 'oa', 'ob', 'om']
@@ -281,6 +288,7 @@ def gen_sizes(rnd, cases, tier):
         npre = {'first': 0, 'middle': rnd.choice((1, 2, 3)), 'last': rnd.choice((1, 2))}[pos]
         npost = {'first': rnd.choice((1, 2)), 'middle': rnd.choice((1, 2, 3)), 'last': 0}[pos]
         nother = rnd.choice((1, 2))
+        e = rnd.choice((1, 1, 2, 3, 5))
 
         def small(k):
             nonlocal t, mid, lines
@@ -300,7 +308,7 @@ def gen_sizes(rnd, cases, tier):
             nonlocal t, mid, lines
             t += rnd.choice((1, 2, 7))
             mid += 1
-            sec = rnd.choice(('-', 'om', 'oa', 'ob', 'zm'))
+            sec = rnd.choice({3: ('-', 'oa'), 5: ('-', 'ob')}.get(e, ('-', 'om', 'oa', 'ob', 'zm')))     # one the endpoint may see
             k = ESC.get(c, 1) ** 2
             base = enc_entry_len(t, sec, mid, 0, c)
             if mode == 'entry':
@@ -325,7 +333,6 @@ def gen_sizes(rnd, cases, tier):
             t += 3
             lines += ['now %d' % t, 'rl_rotate']
             small(nother)
-        e = rnd.choice((1, 1, 2, 3, 5))
         t += rnd.choice((2, 15))
         lines += ['now %d' % t, 'rl_ls', 'rl_conn e=%d' % e, 'rl_ls']
         if rnd.random() < 0.4:
@@ -495,16 +502,52 @@ def keep_line(l):
 
 
 def extra_stats(cases, impl):
-    st = {'persisted': 0, 'not_persisted': 0, 'replays': 0, 'replayed_messages': 0, 'setlogposition_in_replay': 0, 'truncations': 0, 'corruptions': 0}
+    st = {'persisted': 0, 'not_persisted': 0, 'replays': 0, 'replayed_messages': 0, 'setlogposition_in_replay': 0, 'truncations': 0, 'corruptions': 0,
+          'relays_with_pad': 0, 'largest_pad': 0, 'pads_ge_64KiB': 0, 'pads_ge_1MiB': 0, 'largest_replayed_message': 0, 'replayed_messages_ge_1MiB': 0,
+          'largest_log_file': 0, 'size_boundary_targets': {}, 'nonmonotone_relays': 0}
     for c in cases:
+        last = None
+        tnow = None
         for l in c['lines']:
             if l.startswith('rl_trunc'): st['truncations'] += 1
             if l.startswith('rl_corrupt'): st['corruptions'] += 1
+            if l.startswith('now '):
+                tnow = int(l.split()[1])
+            if l.startswith('rl_init'):
+                last = None
+            if l.startswith('rl_relay'):
+                if last is not None and tnow is not None and tnow <= last:
+                    st['nonmonotone_relays'] += 1
+                last = tnow
+                if ' pad=R' in l:
+                    n = int(l.split(' pad=R')[1].split('x')[0])
+                    st['relays_with_pad'] += 1
+                    st['largest_pad'] = max(st['largest_pad'], n)
+                    if n >= 65536 - 400: st['pads_ge_64KiB'] += 1
+                    if n >= 1048576 - 400: st['pads_ge_1MiB'] += 1
+        tg = c.get('tags', {})
+        if tg.get('family') == 'size-boundaries':
+            k = '%s:%d' % (tg['mode'], tg['size'])
+            st['size_boundary_targets'][k] = st['size_boundary_targets'].get(k, 0) + 1
         for l in impl.get(c['id'], []):
             if l.startswith('rl_relay logged=1'): st['persisted'] += 1
             elif l.startswith('rl_relay'): st['not_persisted'] += 1
             elif l.startswith('rl_conn'):
                 st['replays'] += 1
-                st['replayed_messages'] += l.count('M')
-                st['setlogposition_in_replay'] += l.count('P')
+                for it in l.split(' out=')[-1].split(','):
+                    if it.startswith('M'):
+                        st['replayed_messages'] += 1
+                        try:
+                            n = int(it[1:].split(':')[0])
+                        except ValueError:
+                            continue
+                        st['largest_replayed_message'] = max(st['largest_replayed_message'], n)
+                        if n >= 1048576: st['replayed_messages_ge_1MiB'] += 1
+                    elif it.startswith('P'):
+                        st['setlogposition_in_replay'] += 1
+            elif l.startswith('rl_ls files='):
+                for f in l.split()[1][6:].split(','):
+                    if ':' in f:
+                        st['largest_log_file'] = max(st['largest_log_file'], int(f.split(':')[1]))
+                st['largest_log_file'] = max(st['largest_log_file'], int(l.split(' cur=')[1].split()[0]))
     return st
